@@ -203,7 +203,7 @@ Qed.
 Theorem C15_ln_remove_all_proved : C15_ln_remove_all_statement.
 Proof. exact (C15_ln_remove_all ln_remove_keeps_WF). Qed.
 
-(* ---- everything together: on well-formed states all operation kinds except the three refuted ones ---- *)
+(* ---- everything together: on well-formed states ALL operation kinds ---- *)
 Definition atomic_op_wf (o : op) : bool :=
   atomic_op o ||
   match o with ChRemoveAll _ _ | LnRemoveAll _ _ _ | WbsRemoveAll _ _ => true | _ => false end.
@@ -220,12 +220,6 @@ Proof.
   - apply (C15_wbs_remove_all TW); exact W.
 Qed.
 
-Lemma atomic_op_wf_false_kinds o : atomic_op_wf o = false ->
-  (exists d ts vs, o = LstShift d ts vs) \/ (exists ts p, o = LstSetParent ts p) \/
-  (exists i nm p ch su pr, o = NewTaskRel i nm p ch su pr).
-Proof.
-  destruct o; cbn; intro H; try discriminate H.
-  - right; right. do 6 eexists; reflexivity.
-  - left. do 3 eexists; reflexivity.
-  - right; left. do 2 eexists; reflexivity.
-Qed.
+(* every operation kind is covered *)
+Lemma atomic_op_wf_all o : atomic_op_wf o = true.
+Proof. destruct o; reflexivity. Qed.
